@@ -32,6 +32,8 @@ def _gen(name, corr_is_property, extra_assumptions=()):
                 assumptions=["the model Codec.v transcribes src/codec.rs, src/compact.rs, src/bit_vec.rs and the derive expansion; agreement with the working tree is sampled on every run (registry of ~190 concrete types, seeded boundary-biased values and mutated byte strings); the theorems about the model are unbounded"] + list(extra_assumptions))
 
 PROPS.update({
+    "C05": dict(_gen("c05", True, ["the derive macros' token generation is not modelled: the model is of the semantics of the emitted code (layout of the descriptor), tied by compiling and running generated programs"]),
+                custom=__import__("c05").run, harness_timeout=3000),
     "C17": dict(harness="c17", model_fn="c17_model", corr_is_property=True, custom=__import__("c17").run, harness_timeout=3000,
         corr_name="CorrC17.c17_check: rustc + derive macros accept/reject of generated definitions vs Derive.derive_accepts / compact_as_accepts",
         trusted_base=["rustc's own checks (duplicate Rust discriminants etc.) are kept out of the way by the generator, so a rejection is the macro's; the attribution of a compiler error to a definition uses the diagnostic's line spans; unexpected verdicts are re-checked by compiling the definition alone"],
